@@ -21,6 +21,8 @@ IE == /\ Is("ie")
 End == /\ Is("end")
        /\ G("every ingest returned (C20)", inside = {} /\ returned = total)
        /\ G("no compaction thread failed", Ev.thread_errors = <<>>)
+       /\ G("every ingested key reads back its newest value after concurrent ingests and compactions (C01/C05)", Ev.missing = 0 /\ Ev.wrong = 0)
+       /\ G("the history written by concurrent ingests and compactions verifies (C04)", Ev.verify \in {"ok", "backoff"})
        /\ UNCHANGED <<inside, returned, total>>
 TraceNext == Start \/ IB \/ IE \/ End
 TraceSpec == Init /\ [][TraceNext]_vars
